@@ -68,6 +68,7 @@ package enterprise
 //@   ensures @nothing_else forall i int :: {ent_store[kPO(i)]} {ent_store[kRaised(i)]} {ent_store[kAccepted(i)]} poHas(ent_store, i) || raisedHas(ent_store, i) || acceptedHas(ent_store, i) ==> exists j int :: 0 <= j && j < len(pos) && pos[j].Id == i
 //@   ensures @next_id entHighestIs(ent_store, data.StartingPurchaseOrderId)
 //@   ensures @whitelist_imported forall j int :: {data.Whitelist[j]} 0 <= j && j < len(data.Whitelist) ==> validBech32(data.Whitelist[j]) && wlHas(ent_store, bytesval(addrOf(data.Whitelist[j])))
+//@   ensures @whitelist_entries_hold_their_address ENT_WL_WF(ent_store)
 //@   ensures @no_other_whitelisted forall a `BytesV` :: {ent_store[kWhitelist(a)]} wlHas(ent_store, a) ==> exists j int :: 0 <= j && j < len(data.Whitelist) && validBech32(data.Whitelist[j]) && bytesval(addrOf(data.Whitelist[j])) == a
 //@   ensures @params_stored entParamsSet(ent_store) ==> entParams(ent_store) == data.Params
 //@   ensures @totals_stored totalLockedAmt(ent_store) == Amt(data.TotalLocked) && totalSpentAmt(ent_store) == Amt(data.TotalSpent) && ent_store[kTotalLocked] == coinBytes(data.TotalLocked) && ent_store[kTotalSpent] == coinBytes(data.TotalSpent)
@@ -84,6 +85,7 @@ package enterprise
 //@   loop 0: invariant 0 - 1 <= rangeindex && lockSum(ent_store) == lockSum(s0) && spentSum(ent_store) == spentSum(s0)
 //@   loop 0: invariant forall k `enterprise.Key` :: {ent_store[k]} !isWhitelistKey(k) ==> ent_store[k] == at_loop_entry(ent_store)[k]
 //@   loop 0: invariant rangeindex < len(data.Whitelist) && forall j int :: {data.Whitelist[j]} 0 <= j && j <= rangeindex ==> validBech32(data.Whitelist[j]) && wlHas(ent_store, bytesval(addrOf(data.Whitelist[j])))
+//@   loop 0: invariant ENT_WL_WF(ent_store)
 //@   loop 0: invariant forall a `BytesV` :: {ent_store[kWhitelist(a)]} wlHas(ent_store, a) ==> exists j int :: 0 <= j && j <= rangeindex && validBech32(data.Whitelist[j]) && bytesval(addrOf(data.Whitelist[j])) == a
 //@   loop 1: invariant 0 - 1 <= rangeindex && rangeindex < len(pos) && lockSum(ent_store) == lockSum(s0) && spentSum(ent_store) == spentSum(s0)
 //@   loop 1: invariant forall k `enterprise.Key` :: {ent_store[k]} !isPOKey(k) && !isRaisedKey(k) && !isAcceptedKey(k) ==> ent_store[k] == at_loop_entry(ent_store)[k]
@@ -114,6 +116,10 @@ package enterprise
 //@   requires forall i int :: {ent_store[kPO(i)]} poHas(ent_store, i) ==> 0 <= i && i < 2^64 && poGet(ent_store, i).Id == i
 //@   requires ENT_BOOKS_WF(ent_store)
 //@   requires entHighestSet(ent_store) ==> len(ent_store[kEHighest]) == 8
+//@   requires ENT_WL_WF(ent_store)
+//@   ensures @whitelist_as_stored forall j int :: {gs.Whitelist[j]} 0 <= j && j < len(gs.Whitelist) ==> validBech32(gs.Whitelist[j]) && wlHas(ent_store, bytesval(addrOf(gs.Whitelist[j])))
+//@   ensures @whole_whitelist forall a `BytesV` :: {ent_store[kWhitelist(a)]} wlHas(ent_store, a) ==> exists j int :: 0 <= j && j < len(gs.Whitelist) && bytesval(addrOf(gs.Whitelist[j])) == a
+//@   ensures @whitelist_without_duplicates forall i int, j int :: {gs.Whitelist[i], gs.Whitelist[j]} 0 <= i && i < j && j < len(gs.Whitelist) ==> bytesval(addrOf(gs.Whitelist[i])) != bytesval(addrOf(gs.Whitelist[j]))
 //@   ensures @orders_ascending forall i int, j int :: {gs.PurchaseOrders[i], gs.PurchaseOrders[j]} 0 <= i && i < j && j < len(gs.PurchaseOrders) ==> gs.PurchaseOrders[i].Id < gs.PurchaseOrders[j].Id
 //@   ensures @orders_as_stored forall j int :: {gs.PurchaseOrders[j]} 0 <= j && j < len(gs.PurchaseOrders) ==> poHas(ent_store, gs.PurchaseOrders[j].Id) && gs.PurchaseOrders[j] == poGet(ent_store, gs.PurchaseOrders[j].Id)
 //@   ensures @all_orders forall x uint64 :: {ent_store[kPO(x)]} poHas(ent_store, x) ==> exists j int :: 0 <= j && j < len(gs.PurchaseOrders) && gs.PurchaseOrders[j].Id == x
